@@ -8,7 +8,7 @@ use clvm_rs::allocator;
 use clvm_rs::allocator::{Allocator, NodePtr};
 
 use clvm_rs::error::EvalErr;
-use num_bigint::ToBigInt;
+use num_bigint::{Sign, ToBigInt};
 
 use sha2::Digest;
 use sha2::Sha256;
@@ -555,16 +555,25 @@ pub fn run_step(
                         Rc::new(step_.clone()),
                     ));
                 }
+                // A byte string in path position is an unsigned path: reading it
+                // as a signed number would drop leading 0xff bytes (0xff82 is a
+                // 15 step path, not the 7 step path 0x82).
                 SExp::QuotedString(l, _, v) => {
                     step = RunStep::Step(
-                        Rc::new(SExp::Integer(l.clone(), number_from_u8(v))),
+                        Rc::new(SExp::Integer(
+                            l.clone(),
+                            Number::from_bytes_be(Sign::Plus, v),
+                        )),
                         context.clone(),
                         parent.clone(),
                     );
                 }
                 SExp::Atom(l, v) => {
                     step = RunStep::Step(
-                        Rc::new(SExp::Integer(l.clone(), number_from_u8(v))),
+                        Rc::new(SExp::Integer(
+                            l.clone(),
+                            Number::from_bytes_be(Sign::Plus, v),
+                        )),
                         context.clone(),
                         parent.clone(),
                     );
